@@ -359,6 +359,59 @@ func runC17(h *H) {
 		}
 		h.Emit(fmt.Sprintf("dec query %d %s", rev, hx(in)), obs, oracle)
 	}
+	// strings beyond the reader's 1 MiB pre-allocation step (read in several chunks): direct oracle only,
+	// the case lines would be megabytes long
+	for _, n := range []int{1 << 20, 1<<20 + 1, 2<<20 + 17} {
+		long := make([]byte, n)
+		for i := range long {
+			long[i] = byte('a' + i%23)
+		}
+		rev := revs[h.R.Intn(len(revs))]
+		check := func(name string, enc func(b *proto.Buffer), dec func(r *proto.Reader) (string, error)) {
+			var b proto.Buffer
+			enc(&b)
+			r := proto.NewReader(bytes.NewReader(b.Buf[:]))
+			got, err := dec(r)
+			rest, _ := io.ReadAll(r)
+			oracle := "ok"
+			switch {
+			case err != nil:
+				oracle = fmt.Sprintf("FAIL:%s with a %d-byte string: decode of own encoding failed: %v", name, n, err)
+			case got != string(long):
+				oracle = fmt.Sprintf("FAIL:%s with a %d-byte string: decoded string differs from the encoded one", name, n)
+			case len(rest) != 0:
+				oracle = fmt.Sprintf("FAIL:%s with a %d-byte string: did not consume exactly the encoding", name, n)
+			}
+			h.Emit(fmt.Sprintf("long %s %d %d", name, rev, n), "-", oracle)
+			h.Stat("msg.longstring")
+		}
+		check("tablecolumns", func(b *proto.Buffer) { (&proto.TableColumns{First: "t", Second: string(long)}).EncodeAware(b, rev) },
+			func(r *proto.Reader) (string, error) {
+				if _, err := r.UVarInt(); err != nil {
+					return "", err
+				}
+				var m proto.TableColumns
+				err := m.DecodeAware(r, rev)
+				return m.Second, err
+			})
+		check("exception", func(b *proto.Buffer) { (&proto.Exception{Code: 60, Name: "n", Message: string(long), Stack: "s"}).EncodeAware(b, rev) },
+			func(r *proto.Reader) (string, error) {
+				var m proto.Exception
+				err := m.DecodeAware(r, rev)
+				return m.Message, err
+			})
+		if proto.FeatureSettingsSerializedAsStrings.In(rev) {
+			check("query", func(b *proto.Buffer) { q := genQuery(h.R); q.Body = string(long); q.EncodeAware(b, rev) },
+				func(r *proto.Reader) (string, error) {
+					if _, err := r.UVarInt(); err != nil {
+						return "", err
+					}
+					var q proto.Query
+					err := q.DecodeAware(r, rev)
+					return q.Body, err
+				})
+		}
+	}
 	// BlockInfo and block header
 	for i := 0; i < perMsg; i++ {
 		rev := revs[h.R.Intn(len(revs))]
